@@ -25,6 +25,7 @@
 #include <shark/Algorithms/DirectSearch/ElitistCMA.h>
 #include <shark/Algorithms/DirectSearch/CrossEntropyMethod.h>
 #include <shark/Algorithms/DirectSearch/SimplexDownhill.h>
+#include <shark/Algorithms/DirectSearch/VDCMA.h>
 
 using namespace shark;
 using namespace c18;
@@ -214,6 +215,17 @@ template<> struct Tr<SimplexDownhill> {
 	static void extra(Obs&, O const&) {}
 };
 
+// VDCMA (like LMCMA, whose header does not compile in this tree: unqualified `gauss` in LMCMA.h) derives from
+// AbstractSingleObjectiveOptimizer (hence ISerializable) but defines neither read() nor write().
+template<> struct Tr<VDCMA> {
+	typedef VDCMA O;
+	enum { dim = 4, usesRng = 1 };
+	static O* make(random::rng_type& rng) { return new O(rng); }
+	static void configure(O& o, Prng& r, std::string const&) { o.setInitialSigma(0.25 + r.uni() / 8); }
+	static void init(O& o, Quadratic const& f, RealVector const& x, Prng&, bool) { o.init(f, x); }
+	static void extra(Obs& ob, O const& o) { ob.vec("mean", o.mean()); ob.d("sigma", o.sigma()); ob.u("mu", o.mu()); ob.u("lambda", o.lambda()); }
+};
+
 template<class O> void continueAndObserve(Obs& ob, O& o, Quadratic const& f, bool contOnly) {
 	if (!contOnly) {
 		ob.vec("solution.point", o.solution().point);
@@ -283,4 +295,6 @@ void c18::registerOpt(std::vector<Case>& v) {
 	addK<ElitistCMA>(v, "ElitistCMA", "toggleactive");
 	addK<CrossEntropyMethod>(v, "CrossEntropyMethod", "hyper");
 	addK<SimplexDownhill>(v, "SimplexDownhill", "plain");
+	addCase(v, "VDCMA", "plain_k3", &optCase<VDCMA>);
+	addCase(v, "VDCMA", "plain_k3_cont", &optCase<VDCMA>);
 }
